@@ -181,7 +181,7 @@ def c13c(ctx, tu):
 
 
 def c13d(ctx, tu):
-    protocol.report(ctx, tu, lambda r: r in ("C13.d", "C05.d.1", "C05.d.2", "C05.d.4", "C06.c"))
+    protocol.report(ctx, tu, lambda r: True)   # the whole step protocol is a premise of this property
     for name in ("trompeloeil::lifetime_monitor::is_satisfied", "trompeloeil::lifetime_monitor::is_saturated"):
         for fn in tu.need(name):
             rets = [e.get("x") for b, e in fn.events() if e["e"] == "return"]
